@@ -34,6 +34,11 @@ type Case struct {
 	Sets      [][][]ref.Value `json:"sets"` // data sets -> records -> values
 	Path      int             `json:"path"`
 	ClientCA  bool            `json:"client_ca,omitempty"` // tls: the collector demands a client certificate
+	// Prior (not dtls): an earlier exporter session to the same collector used the same template id
+	// in the same observation domain for these other elements (an exporter numbers its templates
+	// from 256 after every restart); its one record is PriorRec.
+	Prior    []ref.Field `json:"prior,omitempty"`
+	PriorRec []ref.Value `json:"prior_rec,omitempty"`
 }
 
 var (
@@ -141,8 +146,41 @@ func runCase(c Case) (*ev.Failure, bool) {
 		}
 	}
 	defer stop()
-	ep, err := exporter.InitExportingProcess(exporter.ExporterInput{CollectorAddress: cp.GetAddress().String(), CollectorProtocol: in.Protocol,
-		ObservationDomainID: c.Domain, TempRefTimeout: 3600, IsIPv6: c.V6, TLSClientConfig: tlsCfg, CheckConnInterval: time.Hour})
+	exIn := exporter.ExporterInput{CollectorAddress: cp.GetAddress().String(), CollectorProtocol: in.Protocol,
+		ObservationDomainID: c.Domain, TempRefTimeout: 3600, IsIPv6: c.V6, TLSClientConfig: tlsCfg, CheckConnInterval: time.Hour}
+	skip := 0
+	if len(c.Prior) > 0 && c.Transport != "dtls" {
+		pe, err := exporter.InitExportingProcess(exIn)
+		if err != nil {
+			return ev.Failf("exporter cannot connect to the collector over %s: %v", c.Transport, err), true
+		}
+		ts, err := exph.TemplateSet(c.ID, c.Prior, 0)
+		if err == nil {
+			_, err = pe.SendSet(ts)
+		}
+		if err == nil {
+			var ds entities.Set
+			if ds, err = exph.DataSet(c.ID, c.Prior, [][]ref.Value{c.PriorRec}, 0); err == nil {
+				_, err = pe.SendSet(ds)
+			}
+		}
+		if err != nil {
+			pe.CloseConnToCollector()
+			return ev.Failf("earlier session: %v", err), true
+		}
+		for end := time.Now().Add(30 * time.Second); len(sk.snapshot()) < 2; time.Sleep(200 * time.Microsecond) {
+			if time.Now().After(end) {
+				pe.CloseConnToCollector()
+				if c.Transport == "udp" {
+					return nil, false
+				}
+				return ev.Failf("the earlier session's two messages were not delivered over %s", c.Transport), true
+			}
+		}
+		pe.CloseConnToCollector()
+		skip = 2
+	}
+	ep, err := exporter.InitExportingProcess(exIn)
 	if err != nil {
 		return ev.Failf("exporter cannot connect to the collector over %s: %v", c.Transport, err), true
 	}
@@ -188,6 +226,9 @@ func runCase(c Case) (*ev.Failure, bool) {
 			return ev.Failf("over %s the collector delivered %d of %d messages and never the last one (a valid message was dropped or the connection was closed)", c.Transport, len(got), want), true
 		}
 		time.Sleep(200 * time.Microsecond)
+	}
+	if len(got) >= skip {
+		got = got[skip:]
 	}
 	if len(got) != want {
 		if c.Transport == "udp" && len(got) < want {
@@ -283,6 +324,12 @@ func genCase(t *rapid.T) Case {
 	for i := 0; i < n; i++ {
 		c.Fields = append(c.Fields, pool[rapid.IntRange(0, len(pool)-1).Draw(t, "f")])
 	}
+	if c.Transport != "dtls" && rapid.IntRange(0, 3).Draw(t, "prior") == 0 {
+		for range c.Fields {
+			c.Prior = append(c.Prior, pool[rapid.IntRange(0, len(pool)-1).Draw(t, "pf")])
+		}
+		c.PriorRec = gen.Record(t, c.Prior, 20)
+	}
 	limit := maxMessage(c.Transport, c.V6)
 	if c.Transport == "dtls" && rapid.IntRange(0, 4).Draw(t, "dtlsbig") == 0 {
 		limit = 65535 // the open-finding class D10 (excluded from the oracle while the finding is open)
@@ -375,7 +422,7 @@ func classify(c Case) (bool, []string, int) {
 			maxMsg = size
 		}
 	}
-	for k, b := range map[string]bool{"enterprise_element": ent, "length_254_255_256": boundary, "multi_record": nrec >= 2, "message_at_transport_maximum": maxMsg == maxMessage(c.Transport, c.V6), "message_over_60000": maxMsg > 60000} {
+	for k, b := range map[string]bool{"enterprise_element": ent, "length_254_255_256": boundary, "multi_record": nrec >= 2, "message_at_transport_maximum": maxMsg == maxMessage(c.Transport, c.V6), "message_over_60000": maxMsg > 60000, "template_id_reused_by_a_later_session": len(c.Prior) > 0} {
 		if b {
 			cl = append(cl, k)
 		}
